@@ -162,6 +162,10 @@ theorem package_loop_terminates (p : Parser) (n : Nat) :
         exact ih _ _ (by omega)
     · simp only [hc]; exact ⟨n, rfl⟩
 
+/-- the same on every control-flow path separately (regenerated `Gen.LockPaths`): no early return, branch or case of
+    any of these functions leaves a mutex held that a `defer` does not release -/
+theorem locks_balanced_every_path : pathsUnbalancedIn ["agent", "handlers", "socks"] = [] := by decide
+
 /-- regenerated: every function of pkg/agent, pkg/handlers and pkg/socks that takes a mutex
     releases it on every return path (explicitly before, or by defer) -/
 theorem locks_balanced : unbalancedIn ["agent", "handlers", "socks"] = [] := by decide
